@@ -10,6 +10,7 @@ reproduce the exported uid multiset, the uids discarded at each discarding stage
 Oracle (independent of the model and of the per-stage account): the documented rules evaluated on the generator's
 ground truth decide which uids must be in the export, exactly once, still carrying their user keys.
 """
+import copy
 import json
 import os
 import re
@@ -241,13 +242,14 @@ def oracle(s, desc, args, res, arrival, exported, drops):
     inev = input_events(s)
     prep_active = bool(any(args.counter) and "prep_queue" in args.counter) and not desc["tb"]
     expect, pos = [], 0
-    arrived = set(arrival)
+    arrived = Counter(arrival)
+    mult = input_multiplicity(s)
     for u, t in s.truth.items():
         if t.get("nonpositive"):
             if u in arrived:
                 fails.append(("nonpositive_duration_slice_ingested", u))
             continue
-        if u not in arrived:
+        if arrived[u] < mult.get(u, 1):         # a record present k times in the input is k input slices
             fails.append(("slice_lost_in_ingestion", u))
     foreign = sorted({u for u in list(arrival) + [e2e.uid_of(e) for e in exported] if u not in s.truth})
     if foreign:
@@ -286,8 +288,8 @@ def oracle(s, desc, args, res, arrival, exported, drops):
         # exported (e.g. --drop_globals under the --tb profile, which disables that stage) is not a C01 failure
         if miss:
             fails.append(("slice_missing_without_documented_rule", sorted(miss.elements())[:5]))
-        if any(v > 1 for v in got.values()):
-            fails.append(("slice_duplicated", sorted(u for u, v in got.items() if v > 1)[:5]))
+        if any(v > max(1, mult.get(u, 1)) for u, v in got.items()):
+            fails.append(("slice_duplicated", sorted(u for u, v in got.items() if v > max(1, mult.get(u, 1)))[:5]))
         if any(u not in s.truth for u in extra):
             fails.append(("slice_invented", sorted(u for u in extra if u not in s.truth)[:5]))
     # user keys survive (top-level unknown keys are moved into args by convert_events)
@@ -342,10 +344,41 @@ def epoch_host_scenario(r):
     return s
 
 
+def repeat_records(r, s):
+    """a record that the tracer wrote twice (the repository's own sample_flex_3062_job_4.json ends with one): an exact
+    copy of an X record, or of an adjacent B/E pair, right behind the original.  Every copy is an input slice of its own:
+    both are exported (identical intervals nest, they are no partial overlap)."""
+    n = 0
+    for fn, evs in s.files.items():
+        if r.random() < 0.5:
+            continue
+        for _ in range(r.choice([1, 1, 2])):
+            cand = [i for i, e in enumerate(evs) if e2e.uid_of(e) is not None and
+                    (e.get("ph") == "X" or (e.get("ph") == "B" and i + 1 < len(evs) and evs[i + 1].get("ph") == "E"))]
+            if not cand:
+                break
+            i = r.choice(cand)
+            k = 1 if evs[i]["ph"] == "X" else 2
+            evs[i + k:i + k] = copy.deepcopy(evs[i:i + k])
+            n += 1
+    s.meta["repeated_records"] = n
+
+
+def input_multiplicity(s):
+    c = Counter()
+    for evs in s.files.values():
+        for e in evs:
+            if e.get("ph") in ("X", "B") and e2e.uid_of(e) is not None:
+                c[e2e.uid_of(e)] += 1
+    return c
+
+
 def one(ctx, r, atoms, work, case=None):
     """generate (or take) one case, run it, return record"""
     if case is None:
         s = epoch_host_scenario(r) if r.random() < 0.06 else scenario.gen_scenario(r)
+        if r.random() < 0.15 and not s.meta.get("epoch_host"):
+            repeat_records(r, s)
         if s.ranks >= 2 and r.random() < 0.5 and not s.meta.get("epoch_host"):
             # chain all-reduce groups (complete, every rank contributes): clock alignment and bandwidth stages then
             # buffer and shift real work instead of passing everything through
